@@ -46,7 +46,7 @@ func genTlv(g *genCtx) {
 		// serialise: sets of 0..32 parameters
 		nr := 150
 		if g.thorough() {
-			nr = 4000
+			nr = 20000
 		}
 		for i := 0; i < nr; i++ {
 			k := r.Intn(6)
